@@ -8,7 +8,7 @@ HERE = os.path.dirname(os.path.dirname(os.path.abspath(__file__)))
 CHECKS = {
  "C01": ("exploration", "reference-model monitor: independent tree oracle + trace-specification check of the patch stream over generated build pairs; race detector and ASan passes (thorough)",
          "Every generated (old,new) pair is diffed and applied by the real code under 3 of the 25 compression settings (all 25 occur in each run) and the output directory is compared entry by entry with the new build by an oracle that never goes through wharf; the patch bytes are re-parsed by an independent decoder against the framing grammar. Held-on-N-executions, not a proof.",
-         "Trusted: protobuf runtime + generated message types (shared with wharf), tlc.WalkAny (cross-checked per case against an independent walk), the Go standard library gzip and the C brotli decoder used by the independent stream reader.", "§5 C01"),
+         "Every third application reads the old build through a pool that hands a just-used reader back at an arbitrary position (lib.StalePool). Trusted: protobuf runtime + generated message types (shared with wharf), tlc.WalkAny (cross-checked per case against an independent walk), the Go standard library gzip and the C brotli decoder used by the independent stream reader.", "§5 C01"),
  "C02": ("exploration", "invariant monitor (inode/mtime/checksum snapshots before Resume vs before Commit) + independent tree oracle + three-way agreement with fresh application; commit operation sequences recorded from the BOWL_OVERLAY_VERBOSE event log across repeated commits",
          "Each generated pair (weighted to renames, swaps, chains, duplicates, patched-and-renamed files, kind swaps) is applied in place through the overlay bowl several times from identical starting states with plain and optimized patches; the directory must be bit-for-bit untouched (inode, mtime, size, checksum) until Commit and equal to the new build afterwards. Map-iteration orders of the commit phase are sampled by repetition and the distinct operation sequences observed are counted. Four kind-swap classes are recorded as known findings.",
          "Trusted: file-system timestamps/inodes on the scratch tmpfs; the fresh-bowl result is cross-checked against the in-memory new build, not assumed.", "§5 C02"),
@@ -55,7 +55,7 @@ CHECKS = {
          "Each pair is diffed R times with a different controller seed per run and optimized R times per parameter set; any byte difference is a violation; the same reduced list runs under -race and every de-duplicated report with a frame in the differ/optimizer pipelines is a violation.",
          "Race detector sees executed interleavings only; map order sampled by repetition.", "§5 C15"),
  "C16": ("fault_enumeration", "fault/cancellation-instant enumeration at build-tag hooks + quiescence-based deadlock detector over goroutine dumps; independent truth for the fail-fast verdict; forced cancel-inside-healer schedule",
-         "Builds up to 2500 directories / 1300 files with 1023/1024/1025 wounds; consumers fail-fast, wounds file (good / missing dir / /dev/full), printer, healer (good / missing / corrupted archive); cancellation before the call, at directory checks, at the main select and file start of every file, after queueing, before closing the wound channel, inside the healer between its context check and queueing, and from OnProgress callbacks. Validate must return; fail-fast nil implies the tree really matches.",
+         "Builds up to 2500 directories / 1300 files with 1023/1024/1025 wounds; consumers fail-fast, wounds file (good / missing dir / /dev/full), printer, healer (good / missing / corrupted archive); cancellation before the call, at directory checks, at the main select and file start of every file, after queueing, before closing the wound channel, inside the healer between its context check and queueing, and from OnProgress callbacks. Validate must return; fail-fast nil implies the tree really matches; after a cancelled fail-fast run the same context validates once more and must return the true verdict.",
          "Leftover goroutines are reported, not judged.", "§5 C16"),
  "C18": ("exploration", "reference-model monitor: block-wise truth computed by the harness; inner pool records every byte; wound/marker log checked for order, tiling and exactness",
          "Signed sizes around block multiples, written data differing in every subset of blocks / deleted / duplicated / swapped / extended / prefixes, all write slicings, error mode (stop-and-close and keep-writing drivers) and wound mode (raw and aggregated); also written the patcher's way through a pool bowl (entry writer and Transpose out of plain and short-reading target pools).",
